@@ -195,7 +195,16 @@ func (multi *MultiEpoch) handleGetSignaturesForAddress(ctx context.Context, conn
 	// The response is an array of objects: [{signature: string}]
 	response := make([]map[string]any, countTransactions(foundTransactions))
 	numBefore := 0
+	// foundTransactions is a map: ranging over it visits the epochs in a random order.
+	// The response must list the signatures newest first, so walk the epochs from the most recent to the oldest.
+	foundEpochs := make([]uint64, 0, len(foundTransactions))
 	for ei := range foundTransactions {
+		foundEpochs = append(foundEpochs, ei)
+	}
+	sort.Slice(foundEpochs, func(i, j int) bool {
+		return foundEpochs[i] > foundEpochs[j]
+	})
+	for _, ei := range foundEpochs {
 		epoch := ei
 		ser, err := multi.GetEpoch(epoch)
 		if err != nil {
